@@ -26,6 +26,12 @@ type c12Struct struct {
 	unexp int
 }
 
+// a registered struct used as map key; its JSON form drops empty members
+type c12Key struct {
+	A string `json:"a,omitempty"`
+	B int    `json:"b,omitempty"`
+}
+
 type c12PP struct {
 	PP **int
 	Q  *int
@@ -37,6 +43,7 @@ func c12Reg() {
 	_ = GenericRegister[c12Inner]("c12_inner")
 	_ = GenericRegister[c12Struct]("c12_struct")
 	_ = GenericRegister[c12PP]("c12_pp")
+	_ = GenericRegister[c12Key]("c12_key")
 }
 
 func c12Round(v any) (any, error) {
@@ -182,6 +189,18 @@ func c12Eq(a, b any) bool {
 		for k, v := range x {
 			w, ok := y[k]
 			if !ok || !c12IntPtrEq(v, w) {
+				return false
+			}
+		}
+		return true
+	case map[c12Key]int:
+		y, ok := b.(map[c12Key]int)
+		if !ok || len(x) != len(y) {
+			return false
+		}
+		for k, v := range x {
+			w, ok := y[k]
+			if !ok || v != w {
 				return false
 			}
 		}
@@ -387,6 +406,19 @@ func VerifC12Maps() {
 		}
 		c12Check(m, "map[string]any")
 	}
+}
+
+// maps keyed by a struct whose JSON form omits empty members
+func VerifC12StructKeys() {
+	c12Reg()
+	vcfg("maporder", 1)
+	m := map[c12Key]int{}
+	m[c12Key{A: "x"}] = vsymInt("v1")
+	m[c12Key{B: 7}] = vsymInt("v2")
+	if vchoose("third", 2) == 1 {
+		m[c12Key{A: "y", B: 8}] = vsymInt("v3")
+	}
+	c12Check(m, "map[struct]int")
 }
 
 func VerifC12Struct() {
